@@ -12,8 +12,9 @@
 (* range over every 1- and 2-span placement on 0..P.                           *)
 (* A *view* is idx, the sequence of root positions it displays, and comp (it   *)
 (* is displayed complemented).  Views are made by seq[a:b], seq.rc(),          *)
-(* seq.copy(), seq[::-1]; the reachable set is closed (no depth bound) apart   *)
-(* from the number of copies in a history.                                     *)
+(* seq.copy(), seq[feature], seq.degap(), seq[::-1]; the reachable set is      *)
+(* closed (no depth bound) apart from the number of derived objects (copies,   *)
+(* feature slices, degapped sequences) in a history.                            *)
 (*                                                                            *)
 (* Oracle.  On a view v:                                                        *)
 (*   * f is shown at the view positions k with idx[k] in Denotes(f)  (Pos);     *)
@@ -29,6 +30,8 @@
 (*     and leaves extent vs. residues open).  Partial overlap never raises.     *)
 (*   * seq[::-1] is not a view cogent3 keeps annotations for: the result must   *)
 (*     report no features (rather than wrong ones).                             *)
+(*   * seq[feature] and seq.degap() (of a gap-free sequence) are again views:   *)
+(*     nested queries keep denoting the same residues, or the db is dropped.    *)
 (* harness/check_C04.py replays every emitted record on old- and new-style     *)
 (* sequences (features added with add_feature, or loaded as absolute           *)
 (* coordinates into a BasicAnnotationDb).                                      *)
@@ -43,8 +46,8 @@ CONSTANTS P,         \* root length
 VARIABLES off,       \* annotation offset of the root
           fa,        \* spans of feature a: <<<<s, e>>, ...>> in root coordinates, ordered, disjoint
           idx, comp, \* the view
-          blo, bhi,  \* root segment the current object physically holds (changed by copy)
-          hasdb,     \* FALSE behind seq[::-1]
+          blo, bhi,  \* root segment the current object physically holds (changed by copy / seq[feature] / degap)
+          hasdb,     \* FALSE behind seq[::-1] and behind feature slices that answer no queries
           ncopy      \* number of derived objects (copy(sliced=True), seq[feature], degap()) behind the view
 vars == <<off, fa, idx, comp, blo, bhi, hasdb, ncopy>>
 
